@@ -67,6 +67,11 @@ CHECKS = {
    "Histories up to 42 steps mixing every operation kind, timeouts with late replies, direct/adapted/paged searches read to the end or finished early, abandons of finished/timed-out/in-flight/never-issued ids and unsolicited responses; after every step nothing may remain reserved or routed.",
    "Trusted base: hooks verif_msgmap/verif_gauges (read-only), SIM quiescence (paused clock).",
    "DESIGN.md §3 C13", "harness"),
+ "C16": ("exploration",
+   "property-based testing (proptest): generated server paginations, cookies, accompanying controls/options and adapter chains on the simulated connection; request stream decoded by the independent RFC 4511 decoder, item stream compared with the concatenation of pages",
+   "1-5 pages incl. empty first/middle pages and a single page, binary cookies, other controls around the paging control, three adapter chains, caller-supplied paging control, early finish; the scripted server bounds the number of requests and flags any request after the empty cookie.",
+   "Trusted base: SIM, strict request decoder, response model.",
+   "DESIGN.md §3 C16", "harness"),
 }
 
 NOT_YET = {}
